@@ -312,6 +312,17 @@ def check_env_read_each_call():
                  ({'MIDO_DEFAULT_IOPORT': None}, 'open_ioport', [('Input', None), ('Output', 'out')]),
                  ({'MIDO_DEFAULT_OUTPUT': None, 'MIDO_DEFAULT_INPUT': 'three'}, 'open_output', [('Output', None)]),
                  ({}, 'open_ioport', [('Input', 'three'), ('Output', None)])]
+        # use_environ is an ordinary attribute: switched off and on again on the same object
+        os.environ['MIDO_DEFAULT_INPUT'] = 'zero'
+        for flag, exp0 in ((False, None), (True, 'zero'), (False, None)):
+            be.use_environ = flag
+            REC.calls = []
+            be.open_input()
+            if [c[2] for c in REC.calls] != [exp0] or be.use_environ is not flag:
+                return 'after use_environ = %r open_input() opened %r (use_environ reads %r)' % (
+                    flag, [c[2] for c in REC.calls], be.use_environ)
+        be.use_environ = True
+        os.environ.pop('MIDO_DEFAULT_INPUT', None)
         for env, call, exp in steps:
             for k, v in env.items():
                 if v is None:
